@@ -299,8 +299,7 @@ Qed.
 (** non-vacuity: a valid 2-knot table *)
 Example xs_valid_ex : xs_valid {| xg_loge := ug_from_bounds 0 1 2; xg_prime := 1; xg_vals := [1; 2] |}.
 Proof.
-  unfold xs_valid; cbn. repeat split; try lia; try lra.
-  - numR. lra.
-  - right. lia.
-  - unfold no_scaling. lia.
+  unfold xs_valid. cbn [xg_loge xg_prime xg_vals].
+  split; [apply from_bounds_valid; [lia|lra]|].
+  split; [reflexivity|]. split; [right; cbn; lia|]. cbn. unfold no_scaling. lia.
 Qed.
